@@ -66,8 +66,12 @@ def market_history(seed, max_events=40, tick=1.0, prices=(8, 12), offgrid=False,
             if seed % 11 == 5:
                 import numpy as _np
                 side = _np.bool_(side)          # agents that compare numpy values hand in a numpy.bool_ as side flag: truthy / falsy like a bool, but not the object `True`
+            vol = rng.randint(1, 3)
+            if seed % 19 == 7:
+                import numpy as _np
+                vol = _np.int64(vol)            # sizes computed with numpy arrive as numpy integers: integers in every respect but `type(v) is int`
             o = Order(agent_id=rng.randint(0, 2), market_id=0, is_buy=side, kind=MARKET_ORDER if mkt else LIMIT_ORDER,
-                      volume=rng.randint(1, 3), price=p, ttl=rng.choice([None, 1, 2, 3]))
+                      volume=vol, price=p, ttl=rng.choice([None, 1, 2, 3]))
             ev = ("add", o.is_buy, p, o.volume, o.ttl)
             events.append(ev)
             m._add_order(o); live.append(o)
